@@ -264,6 +264,11 @@ def judge(sess, res, check_frame=True):
                         gap = body[(j * st + b) * es:min(((j + 1) * st) * es, len(body))] if st > b else b''
                         if gap != b'\xa5' * len(gap):
                             fails.append(dict(kind='gap-overwritten', line=ln, rank=r, detail=text)); break
+        elif a['kind'] == 'fillrec':
+            # an explicitly filled record overwrites what was written there (judged by the fill oracle)
+            for key in [k for k in exp.val if k[0] == a['vid'] and k[1][:1] == (a['rec'],)]:
+                del exp.val[key]
+                exp.dirty.pop(key, None)
         elif a['kind'] == 'inq':
             o = res.impl.get((ln, 0))
             if o is not None and int(o[1]) == 0:
